@@ -10,6 +10,7 @@ The recorder only wraps module attributes; with the plugin not loaded nothing ch
 """
 from __future__ import annotations
 
+import inspect
 import json
 import os
 import sys
@@ -17,6 +18,7 @@ import typing
 
 _ROOTS: list = []
 _MARSHALS: list = []
+_UNMARSHALS: list = []
 _ORIG: dict = {}
 
 
@@ -66,6 +68,74 @@ def pytest_configure(config):
     _ORIG["marshal"] = mo
     _wrap_everywhere(mo, marshal)
 
+    import typelib.unmarshals.api as uapi
+    uo = uapi.unmarshal
+
+    def unmarshal(t, value, *a, **kw):
+        try:
+            out = uo(t, value, *a, **kw)
+        except Exception as e:
+            if len(_UNMARSHALS) < 5000:
+                _UNMARSHALS.append((t, value, None, type(e).__name__))
+            raise
+        if len(_UNMARSHALS) < 5000:
+            _UNMARSHALS.append((t, value, out, ""))
+        return out
+    _ORIG["unmarshal"] = uo
+    _wrap_everywhere(uo, unmarshal)
+
+    # most tests drive routine objects directly: every call of an unmarshaller routine (outermost calls only, so that one
+    # test case is one event) is recorded with the type the routine is bound to
+    import typelib.unmarshals.routines as ur
+    depth = [0]
+
+    def wrap_call(cls):
+        orig = cls.__dict__["__call__"]
+
+        def __call__(self, val, *a, **kw):
+            depth[0] += 1
+            try:
+                out = orig(self, val, *a, **kw)
+            except BaseException:
+                depth[0] -= 1
+                raise
+            depth[0] -= 1
+            if depth[0] == 0 and len(_UNMARSHALS) < 20000:
+                _UNMARSHALS.append((getattr(self, "t", None), val, out, ""))
+            return out
+        __call__.__wrapped__ = orig
+        cls.__call__ = __call__
+    for name, cls in list(vars(ur).items()):
+        if isinstance(cls, type) and name.endswith("Unmarshaller") and "__call__" in cls.__dict__ and not inspect.isabstract(cls):
+            try:
+                wrap_call(cls)
+            except (TypeError, AttributeError):
+                pass
+    # the same for marshaller routines (outermost calls)
+    import typelib.marshals.routines as mr
+    mdepth = [0]
+
+    def wrap_mcall(cls):
+        orig = cls.__dict__["__call__"]
+
+        def __call__(self, val, *a, **kw):
+            mdepth[0] += 1
+            try:
+                out = orig(self, val, *a, **kw)
+            finally:
+                mdepth[0] -= 1
+            if mdepth[0] == 0 and len(_MARSHALS) < 5000 and getattr(self, "t", None) is not None:
+                _MARSHALS.append((val, self.t, out))
+            return out
+        __call__.__wrapped__ = orig
+        cls.__call__ = __call__
+    for name, cls in list(vars(mr).items()):
+        if isinstance(cls, type) and name.endswith("Marshaller") and "__call__" in cls.__dict__ and not inspect.isabstract(cls):
+            try:
+                wrap_mcall(cls)
+            except (TypeError, AttributeError):
+                pass
+
 
 def pytest_sessionfinish(session, exitstatus):
     path = os.environ.get("VERIF_RECORD")
@@ -77,7 +147,7 @@ def pytest_sessionfinish(session, exitstatus):
     import typelib
     import warnings
     warnings.simplefilter("ignore")
-    out = {"graph": [], "marshal": []}
+    out = {"graph": [], "marshal": [], "unmarshal": []}
     seen = []
     for root in _ROOTS:
         try:
@@ -118,6 +188,22 @@ def pytest_sessionfinish(session, exitstatus):
             ev = {"ev": "marshal", "T": {"k": "any"}, "w": w, "json_ok": json_ok, "again": project(again) == w["r"],
                   "shared": len(c06.mutable_ids(value) & c06.mutable_ids(first)), "intact": vkey(value) == before}
             out["marshal"].append({"t": repr(t)[:100], "value": repr(value)[:100], "byteslike": has_bytes, "event": ev})
+        except BaseException as e:
+            out.setdefault("unobserved", []).append(repr(e)[:100])
+    # every (t, value) given to unmarshal(), with the result: C03's conformance clause, the annotation projected onto the
+    # term language together with the table of the classes it mentions (harness/annterms.py)
+    from harness import annterms
+    for t, value, res, exc in _UNMARSHALS:
+        try:
+            ann = t
+            if isinstance(t, (str, typing.ForwardRef)):
+                continue                      # the caller's module is not known any more
+            defs: dict = {}
+            T = annterms.term_of(ann, defs)
+            ev = {"ev": "unmarshal", "T": T, "defs": defs,
+                  "out": {"k": "raised", "e": exc} if exc else {"k": "ok", "r": project(res)}}
+            out["unmarshal"].append({"t": repr(t)[:100], "value": repr(value)[:100], "asserted": json.dumps(T) != json.dumps(annterms.ANY),
+                                     "event": ev})
         except BaseException as e:
             out.setdefault("unobserved", []).append(repr(e)[:100])
     with open(path, "w") as fh:
